@@ -132,6 +132,21 @@ CHECKS = {
             'Notifications are handled synchronously in the delivering thread; a provider restart is modelled by changing '
             'sequence_id / instance_id of the provider MDIB.',
             'DESIGN.md section 2 C06'),
+    'C07': ('cooperative scheduler owning the interleaving of real reader / writer threads at lock acquire / release '
+            'granularity: hypothesis generated scenarios x schedules, plus exhaustive depth-first enumeration of all '
+            'schedules of small scenarios, with a per-version snapshot history as the oracle',
+            'Reader tasks send GetMdib / GetMdDescription / GetMdState / GetContextStates through the real consumer '
+            'clients and the loop-back transport into the real provider handlers while writer tasks commit generated '
+            'transactions (states, context states, descriptor create / update / delete). ProviderMdib.mdib_lock, the '
+            'transaction lock and (fine mode) the three table locks are replaced by scheduler locks, so a schedule is a '
+            'choice list. Every committed MdibVersion is snapshotted (canonical descriptors, states, context states) while '
+            'the committing task still holds the lock. A response stating MdibVersion V must state a version that was '
+            'current during the request, carry the version group of V, contain exactly the entities a reference selection '
+            '(written from the BICEPS rules) picks from snapshot V, each with the content and counters of snapshot V. '
+            'Small scenarios (1 reader x 1 request x 1-2 writers x 1-2 transactions) are enumerated exhaustively.',
+            'Interleavings are explored at the granularity of the instrumented locks; between two yield points a task '
+            'runs alone. Nothing is claimed for preemption inside a critical section.',
+            'DESIGN.md section 2 C07'),
     'C10': ('hypothesis generated histories of set_location and SetContextState invocations executed end to end '
             '(consumer client, loop-back transport, SetService, SCO worker loop run inline, tutorial context provider) '
             'with an invariant oracle over the provider table and the context reports',
